@@ -163,6 +163,9 @@ package analysis
 //@ func AnalyzeOneUnit(unit, extraPredicates)
 //@   trusted
 //@   modifies extraPredicates
+//@ func AnalyzeAndCheckBounds(units, extraPredicates, boundsChecking)
+//@   trusted
+//@   modifies extraPredicates
 
 // ---- C04: a rule passes the binding check only if every variable it mentions receives a value -----------------
 // A variable is accounted for when a positive atom / constant equality / mode declaration bound it (boundVars),
